@@ -1,0 +1,22 @@
+//go:build verif
+// +build verif
+
+package filetracker
+
+// Exports for the verification harness (build tag "verif"): the write-range
+// tracker is not reachable through the public API.
+
+// VerifNewTracker returns a tracker without backing files.
+func VerifNewTracker() *TFile {
+	return newTFile(nil, nil, "verif")
+}
+
+// VerifTrackWrite records a write of length bytes at offset.
+func (t *TFile) VerifTrackWrite(offset int64, length int64) {
+	t.trackWrite(offset, length)
+}
+
+// VerifRangeToRead returns the contiguous length readable from offset and whether it comes from the mutable store.
+func (t *TFile) VerifRangeToRead(offset int64, length int64) (int64, bool) {
+	return t.getRangeToRead(offset, length)
+}
